@@ -1,7 +1,7 @@
 import ElvisVerif.Lemmas.Subnet
 import ElvisVerif.Lemmas.Cidr
 import ElvisVerif.Lemmas.IpTable
--- import ElvisVerif.Lemmas.SubnetKernels
+import ElvisVerif.Lemmas.SubnetKernels
 /-!
 # C09 — Route lookup is longest-prefix match over consistent subnet arithmetic
 
@@ -449,3 +449,24 @@ example : ∃ t, run exOps = .ok t ∧
   decide
 
 end Elvis.IpTable
+
+/-! ## Tie to the source -/
+namespace Elvis.Subnet
+open Elvis.IpTable
+
+/-- the hand-written model equals the kernels translated from the current Rust source
+    (`Generated/SubnetKernels.lean`, every checked `u32` operation able to fail): `from_bitcount`,
+    `new`, `new_1`, `id`, `contains`, `Obm::cmp` never panic and compute what the model says;
+    `broadcast` / `overlaps` fail exactly where the model does -/
+theorem c09_kernels_match_source :
+    (∀ size : BitVec 32, Gen.Subnet.Ipv4Mask.from_bitcount size = .ok (Mask.fromBitcount size.toNat).toGen) ∧
+    (∀ ip m, Gen.Subnet.Ipv4Net.new ip (Mask.toGen m) = .ok (Net.new ip m).toGen) ∧
+    (∀ ip, Gen.Subnet.Ipv4Net.new_1 ip = .ok (Net.new1 ip).toGen) ∧
+    (∀ n : Net, Gen.Subnet.Ipv4Net.id n.toGen = .ok n.id) ∧
+    (∀ n : Net, Gen.Subnet.Ipv4Net.broadcast n.toGen = n.broadcast) ∧
+    (∀ (n : Net) a, Gen.Subnet.Ipv4Net.contains n.toGen a = .ok (n.contains a)) ∧
+    (∀ a b : Net, Gen.Subnet.Ipv4Net.overlaps a.toGen b.toGen = a.overlaps b) ∧
+    (∀ a b : Net, Gen.Subnet.Obm.cmp ⟨a.toGen⟩ ⟨b.toGen⟩ = .ok (obmCmp a b)) :=
+  ⟨gen_from_bitcount, gen_new, gen_new_1, gen_id, gen_broadcast, gen_contains, gen_overlaps, gen_obm_cmp⟩
+
+end Elvis.Subnet
